@@ -67,9 +67,20 @@ struct Outcome {
   long bad_free, bad_origin;
 };
 
+// Scenarios whose operation deletes and re-allocates sub-objects the receiver owns (ascii_load into a non-fresh receiver,
+// operator=, m_swap, clones of PIP trees, add_constraint after a solve, powerset add_disjunct / collapse, the tree and row
+// protocols): a single k may leave a dangling member.  Every k is enumerated for them in EVERY tier, and each (scenario, k) is
+// run in two variants: assign-from-fresh + use + destroy, and destroy-as-is.
+static bool owner_replacing(const std::string& n) {
+  static const char* pat[] = { "micro.", ".ascii_load", ".assign", ".m_swap", "copy_solved", "pip_tree_clone", "_after_solve", ".add_disjunct",
+                               "collapse", "CO_Tree.", ".clear", ".set_representation", ".copy_other_representation", ".swap_space_dimensions" };
+  for (const char* q : pat) if (n.find(q) != std::string::npos) return true;
+  return false;
+}
 static long g_run_limit_s = 4;       // CPU seconds allowed to one run of one scenario (a hang becomes `crash ... HANG`)
+static int g_variant = 0;
 static Outcome one_run(const Scen& s, uint64_t seed, long k, int kind, std::string* sites = nullptr) {
-  Outcome o; o.r.seed = seed; o.r.k = k; o.r.kind = kind;
+  Outcome o; o.r.seed = seed; o.r.k = k; o.r.kind = kind; o.r.variant = g_variant;
   P->stage = 1;
   { struct itimerval tv; memset(&tv, 0, sizeof tv); tv.it_value.tv_sec = g_run_limit_s; setitimer(ITIMER_VIRTUAL, &tv, nullptr); }
   fi::quarantine_on = true;
@@ -145,7 +156,7 @@ int main(int argc, char** argv) {
     long kstart = -1;         // -1: dry run first
     int crashes = 0;
     while (true) {
-      P->scen = si; P->k = -1; P->total = -1; P->stage = 0;
+      P->scen = si; P->k = -1; P->total = -1; P->stage = 0; P->variant = 0;
       fflush(stdout);
       pid_t pid = fork();
       if (pid == 0) {
@@ -167,11 +178,14 @@ int main(int argc, char** argv) {
         P->total = n;
         long soft = 0, fired_n[2] = {0, 0}, absorbed = 0, transient = 0, reruns = 0, runs = 0, notfired = 0;
         long k0 = kstart < 0 ? 0 : kstart;
+        const bool owner_repl = owner_replacing(s.name);
         struct timespec t0; clock_gettime(CLOCK_MONOTONIC, &t0);
         for (long k = k0; k < n; ++k) {
           if (onek > -2 && k != onek) continue;
           if (k >= kcap && ((k - kcap) % stride) != 0) continue;
-          if (sample > 0 && si >= sample_from && n > sample) { long st = (n + sample - 1) / sample; if ((k % st) != (long)(seed % (uint64_t)st)) continue; }
+          if (sample > 0 && si >= sample_from && n > sample && !(owner_repl && n <= 3000)) { long st = (n + sample - 1) / sample; if ((k % st) != (long)(seed % (uint64_t)st)) continue; }
+          for (int var = 0; var <= (owner_repl ? 1 : 0); ++var) {
+          g_variant = var; P->variant = var;
           P->k = k;
           Outcome o = one_run(s, sseed, k, kind); ++runs;
           if (o.r.fired) ++fired_n[o.r.fired_origin < 0 ? 0 : o.r.fired_origin]; else ++notfired;
@@ -187,7 +201,7 @@ int main(int argc, char** argv) {
           int hard = 0; for (int f = 0; f < o.r.failed.n; ++f) if (o.r.failed.txt[f][0] != '~') ++hard; else ++soft;
           bool notable = leak[0] + leak[1] > 0 || o.bad_free || o.bad_origin || hard > 0 || !o.r.fault_done;
           if (notable && sites.empty()) { (void)one_run(s, sseed, k, kind, &sites); ++reruns; }
-          if (s.name.compare(0, 6, "micro.") == 0) {
+          if (var == 0 && s.name.compare(0, 6, "micro.") == 0) {
             // one line per run for the protocols replayed against the allocation machines (Driver/C14.lean)
             std::string rest = s.name.substr(6); size_t dot = rest.rfind('.');
             std::string mach = dot == std::string::npos ? rest : rest.substr(0, dot), num = dot == std::string::npos ? "0" : rest.substr(dot + 1);
@@ -198,7 +212,7 @@ int main(int argc, char** argv) {
           }
           if (notable || onek > -2) {
             std::ostringstream t;
-            t << "fault " << kn << " " << si << " " << s.name << " k=" << k << " of=" << n << " origin=" << (!o.r.fired ? "none" : kind != K_ALLOC ? "checkpoint" : o.r.fired_origin == 0 ? "new" : "gmp")
+            t << "fault " << kn << " " << si << " " << s.name << " k=" << k << " of=" << n << " variant=" << var << " origin=" << (!o.r.fired ? "none" : kind != K_ALLOC ? "checkpoint" : o.r.fired_origin == 0 ? "new" : "gmp")
               << " fired=" << o.r.fired << " result=" << (o.r.completed ? "completed" : o.r.threw)
               << " leak_new=" << leak[0] << " leak_gmp=" << leak[1] << " bad_free=" << o.bad_free << " bad_origin=" << o.bad_origin
               << " cand=" << o.cand[0] << "," << o.cand[1];
@@ -206,7 +220,9 @@ int main(int argc, char** argv) {
             if (!sites.empty()) t << " " << sites;
             J.line(t.str());
           }
+          }   // variants
         }
+        g_variant = 0;
         struct timespec t1; clock_gettime(CLOCK_MONOTONIC, &t1);
         long ms = (t1.tv_sec - t0.tv_sec) * 1000 + (t1.tv_nsec - t0.tv_nsec) / 1000000;
         std::ostringstream e;
@@ -218,7 +234,7 @@ int main(int argc, char** argv) {
       int st = 0; waitpid(pid, &st, 0);
       if (WIFSIGNALED(st) || (WIFEXITED(st) && WEXITSTATUS(st) != 0)) {
         std::ostringstream c;
-        c << "crash " << kn << " " << si << " " << s.name << " k=" << P->k << " of=" << P->total << " stage="
+        c << "crash " << kn << " " << si << " " << s.name << " k=" << P->k << " of=" << P->total << " variant=" << P->variant << " stage="
           << (P->stage == 1 ? "setup" : P->stage == 2 ? "armed_call" : P->stage == 3 ? "post" : P->stage == 31 ? "post_OK" : P->stage == 32 ? "post_copy"
               : P->stage == 33 ? "post_reuse" : P->stage == 34 ? "post_reassign" : P->stage == 35 ? "post_redo" : P->stage == 36 ? "post_arg_check"
               : P->stage == 39 ? "post_destructors" : "runner") << " "
@@ -231,6 +247,7 @@ int main(int argc, char** argv) {
           if (pp == 0) {
             struct rlimit rl; rl.rlim_cur = 10; rl.rlim_max = 12; setrlimit(RLIMIT_CPU, &rl);
             (void)one_run(s, sseed, -1, kind);
+            g_variant = (int)P->variant;
             g_thrower_only = true;
             std::string dummy;
             (void)one_run(s, sseed, P->k, kind, &dummy);
